@@ -494,7 +494,7 @@ class Ref:
                     kwargs[key] = self.process(vn, params[key]['type'])
                 except _Fail as e:
                     failed = failed or e
-            elif key == '_yatiml_extra' or key == 'self':
+            elif key == '_yatiml_extra':
                 raise _Unspec('attribute named like a special parameter')
             elif c.get('extra'):
                 self.rule('extra-attribute')
